@@ -258,6 +258,41 @@ def cls_norm(cls: Class, attr: str) -> str:
     return attr.lstrip("_")
 
 
+def no_shared_fromkeys_value(ctx: Ctx, rep: Report, rid: str = "R17.7") -> int:
+    """`dict.fromkeys(keys, <one mutable object>)` files the SAME object under every key: where the values are changed
+    afterwards (through `D[k][...] = v`, `D[k].update(...)`, or a local bound to `D[k]`), a change meant for one key is a
+    change of all - two ACLs bound to one interface both get both directions."""
+    rep.rule(rid)
+    hits = 0
+    n = 0
+    for f in ctx.prog.funcs:
+        for x in own_nodes(f.node):
+            if not (isinstance(x, (ast.Assign, ast.AnnAssign)) and x.value is not None and isinstance(x.value, ast.Call) and src(x.value.func) == "dict.fromkeys" and len(x.value.args) == 2):
+                continue
+            v = x.value.args[1]
+            mutable = isinstance(v, (ast.Dict, ast.List, ast.Set)) or (isinstance(v, ast.Call) and src(v.func) in ("dict", "list", "set"))
+            t = x.targets[0] if isinstance(x, ast.Assign) else x.target
+            if not mutable or not isinstance(t, ast.Name):
+                continue
+            n += 1
+            d_ = t.id
+            aliases = {y.targets[0].id for y in own_nodes(f.node) if isinstance(y, ast.Assign) and isinstance(y.targets[0], ast.Name) and isinstance(y.value, ast.Subscript) and src(y.value.value) == d_}
+            aliases |= {y.target.id for y in own_nodes(f.node) if isinstance(y, ast.AnnAssign) and isinstance(y.target, ast.Name) and y.value is not None and isinstance(y.value, ast.Subscript) and src(y.value.value) == d_}
+            def is_value(e: ast.AST) -> bool:
+                return (isinstance(e, ast.Subscript) and src(e.value) == d_) or (isinstance(e, ast.Name) and e.id in aliases)
+            changed = [y for y in own_nodes(f.node) if (isinstance(y, ast.Assign) and any(isinstance(tt, ast.Subscript) and is_value(tt.value) for tt in y.targets)) or (isinstance(y, ast.Call) and isinstance(y.func, ast.Attribute) and y.func.attr in ("update", "append", "extend", "add", "setdefault", "insert") and is_value(y.func.value))]
+            rep.instance()
+            if changed:
+                hits += 1
+                rep.violation(f.qualname, f"{snippet(x, 50)} ... {snippet(changed[0], 40)}", "every key of the dict holds the same mutable object, and that object is changed through one key: the change shows under all keys", where(f, x), inp="interface X / ip access-group A in / ip access-group B out  ->  A and B both get input and output")
+            else:
+                rep.ok(f"{f.qualname}: {snippet(x, 40)}", "the shared value is not changed afterwards", where=where(f, x))
+    rep.instance()
+    if hits == 0 and n == 0:
+        rep.ok("package", "no dict.fromkeys with a mutable value", nontrivial=False)
+    return hits
+
+
 def carried_flags(ctx: Ctx, rep: Report, rid: str = "R17.5", fixture: bool = False) -> int:
     """No method remembers in a flag that "there is nothing to do" when what it would do depends on objects nested in the
     object (ports, addresses): those are handed out to the user and change without the owner noticing, so the flag is
@@ -552,6 +587,7 @@ def run(ctx: Ctx, rep: Report, tier: str) -> None:
     r17_4(ctx, rep)
     run_fixture("shared", lambda c, r: r17_4(c, r, fixture=True), expect_violation="one object for")
     carried_flags(ctx, rep)
+    no_shared_fromkeys_value(ctx, rep)
     run_fixture("carried", lambda c, r: carried_flags(c, r, fixture=True), expect_violation="answers from the flag")
     derived_attributes_refreshed(ctx, rep)
     run_fixture("carried", lambda c, r: derived_attributes_refreshed(c, r, fixture=True), expect_violation="keeps its value")
